@@ -30,7 +30,7 @@ CHECKS = {
          "TaskFailure for this worker naming the task in hand, last, at most once - and ends with memory.flush() otherwise; Executor.terminate never raises, tells every started worker to shut down "
          "and a live shm server to stop; Executor.recv_loop ends only by terminating and never terminates without having told the controller (ExecutorExit or ExecutorFailure for ANY exception), "
          "and every turn runs the health check then the retry pass; Bridge.recv_events never returns a batch that carried a failure notice (it shuts the executors down and raises), returns only "
-         "publications / payloads and never an empty batch. The composition (controller.run, Manager.atexit, real processes) is exercised by exhaustive failure injection with fake process "
+         "publications / payloads and never an empty batch. The composition (controller.run, Manager.atexit, real processes, the real runner inside the real worker main loop incl. tasks short of their declared outputs) is exercised by exhaustive failure injection with fake process "
          "handles and an in-memory network - bounded, not proof.",
          PYVC_NOTE + "Assumed contracts: comms.callback, Executor.to_controller, runner.run / RunnerContext.project / PackagesEnv.extend / Memory.flush (may raise anything), shm_client.shutdown, "
          "Bridge.shutdown, ReliableSender.ack/maybe_retry (proved under C06), GraceWatcher (heartbeat bookkeeping). N/A part: wall-clock bound, leaked OS processes / segments after real crashes "
@@ -44,7 +44,7 @@ BOUNDED = {
  "C06": "bounded: real Listener/ReliableSender and the real owner loops over an adversarial in-memory network (drop/duplicate/delay), exhaustive frame shapes",
  "C07": "bounded: two real DataServers + real Listener/send_data over the adversarial network, adversary-scheduled thread-pool jobs",
  "C08": "bounded: real shm Manager + real Disk page code over a fake /dev/shm; exhaustive operation sequences to depth 4/5 + random walks; ground truth kept by the harness",
- "C09": "bounded: same harness as C08 with byte-identity, reader-protection, delayed-purge and eviction-liveness monitors",
+ "C09": "bounded: same harness as C08 with byte-identity, reader-protection, delayed-purge and eviction-liveness monitors; exhaustive run of the real victim selection (lottery) on all candidate lists up to the bound",
  "C10": "bounded: real graph2job + execute_sequence + runner.run on enumerated graphs with recorder callables (argument positions, output binding, count mismatch)",
  "C11": "bounded: real graph transforms on all small DAGs with adversarial names, compared through a denotation function",
  "C12": "bounded: real serialise/deserialise/JSON/Cascade file on all small DAGs and fluent programs, compared node by node",
@@ -78,7 +78,7 @@ MIXED = {
  "C08": "Proved by pyvc+z3: shm Manager.__init__/add/purge/page_out(+callback)/page_in(+callback)/get/close_callback against contracts over the WHOLE dataset map with the ghost aggregate 'used' "
         "(sum of in-memory sizes <= capacity preserved by every operation, nothing but the named key changes; 348 VCs). Assumed: Manager.page_out_at_least (6 of its 29 VCs time out) and the victim lottery. ",
  "C09": "Proved by pyvc+z3: Manager.is_pageoutable/get/close_callback/purge/page_out callback - a dataset with a live reader is never chosen or unlinked, delayed purge happens at the last close (283 VCs); Disk._page_out - the manager is told exactly once, last; success is reported, and the segment unlinked, only after the WHOLE buffer "
-        "of that segment was written to its spill file (opened for writing) and the file closed; nothing escapes the pool thread; Disk._page_in - success only after a new segment named after the dataset was created, its spill file opened for reading and the chunks read copied into the segment's buffer back to back from offset 0, each at full length (loop invariant over the event log, any number of chunks) - 42 VCs. ",
+        "of that segment was written to its spill file (opened for writing) and the file closed; nothing escapes the pool thread; Disk._page_in - success only after a new segment named after the dataset was created, its spill file opened for reading and the chunks read copied into the segment's buffer back to back from offset 0, each at full length (loop invariant over the event log, any number of chunks) - 42 VCs; algorithms.lottery - changes nothing and never returns more victims than candidates (26 VCs; its clause *every victim is a candidate* stays ASSUMED and is decided by an exhaustive bounded run of the real function). ",
  "C10": "Proved by pyvc+z3: executor.runner.runner.run - the callable is invoked once, first, with every static argument and every upstream value (Memory.provide of the declared source) in its declared "
         "position / under its declared name and nothing else; one output: the result is stored under it; several outputs: the j-th yielded value is stored under the j-th declared output in key order, "
         "one store per output, and a count mismatch raises (task failure); low.func.ensure (84 VCs, loop invariants for every number of arguments / outputs). graph2job/node2task stay bounded. ",
